@@ -4,10 +4,15 @@
    array reader, the Vec<u8> a string is collected into -- is for at most as many elements /
    bytes as there are bytes in the buffer it was given.  A count field alone can never make
    the decoder reserve memory for data that is not present.  (The total is then linear in the
-   input for specifications whose array elements occupy at least 4 bytes; the allocator's
-   actual byte counts are tied to this ledger by the correspondence check K3a.)
+   input for specifications whose array elements occupy at least 4 bytes and in which no
+   counted array is nested in its own element type; the allocator's actual byte counts are tied
+   to this ledger by the correspondence check K3a.)
+   Finding F15 (C09_refuted_linear_F15): when a counted array can contain a counted array of
+   the same declaration, every nesting level reserves min(count, remaining) elements while the
+   outer reservations are alive; d levels reserve 4d(d-1) elements for 8d input bytes.
    Proofs in XdrProofs.LedgerProofs. *)
 From XdrProofs Require Import LedgerProofs.
+From XdrModel Require Import Emit Sem.
 Open Scope N_scope.
 Open Scope list_scope.
 
@@ -51,3 +56,35 @@ Theorem C09_over_max_reserves_nothing :
     = Err InvalidLength (mk a (o + 4) rest l).
 Proof. exact read_variable_array_over_max. Qed.
 Print Assumptions C09_over_max_reserves_nothing.
+
+(* ---- finding F15: the sum of the requests is not linear for self-nested counted arrays ---- *)
+Definition A_nest : ast :=
+  {| constants := [];
+     types := [("tnest"%string, TStruct {| st_name := "tnest"; st_fields := [
+                  {| sf_name := "v"; sf_value := ANone U32; sf_optional := false |};
+                  {| sf_name := "kids"; sf_value := AVar (Ident "tnest") None; sf_optional := false |}] |})];
+     generics := [] |}.
+
+(* d repetitions of (v = 7, count = 0x00ffffff) *)
+Fixpoint nest_input (d : nat) : bytes :=
+  match d with O => [] | S k => [0; 0; 0; 7; 0; 255; 255; 255] ++ nest_input k end.
+
+Definition reserved_elems (l : list resv) : N :=
+  fold_right (fun r acc => match r with ResVec cap _ => cap + acc | _ => acc end) 0 l.
+
+Definition nest_total (d : nat) : option N :=
+  match gen A_nest with
+  | EOk md => match dec md (4 * d + 8) "tnest" (mk 1 0 (nest_input d) []) with
+              | Err InvalidLength s' => Some (reserved_elems (s_led s'))
+              | _ => None
+              end
+  | _ => None
+  end.
+
+(* 8d bytes of input make the decoder reserve 4d(d-1) elements before it fails: doubling the
+   input quadruples the reservation (960, 3968, 16128, 65024 elements for 128 .. 1024 bytes) *)
+Theorem C09_refuted_linear_F15 :
+  nest_total 16 = Some 960 /\ nest_total 32 = Some 3968 /\
+  nest_total 64 = Some 16128 /\ nest_total 128 = Some 65024.
+Proof. repeat split; vm_compute; reflexivity. Qed.
+Print Assumptions C09_refuted_linear_F15.
